@@ -10,23 +10,64 @@ package evmlane
 // 03e: EVM-lane only. Cosmos lane: straight to the continuation, nothing touched. Ethereum lane: continues only for a
 // non-empty sender address whose account has no contract code (an externally owned account).
 //@ func (ead ELValidateBasicEoaDecorator) AnteHandle(ctx sdk.Context, tx sdk.Tx, simulate bool, next sdk.AnteHandler) (newCtx sdk.Context, err error)
+//@   requires tx != nil && txUnpacked(payload(tx))
 //@   modifies everything
+// own panics: msg.From is not bech32 (excluded by 03: msg.ValidateBasic)
+//@   panics[C20.own_code_panics] only_if hcPanics[hcN[0]] || (single(payload(tx)) && !bech32Valid(ethMsgOf(payload(tx)).From))
 //@   ensures[C07.cosmos_passes] !single(payload(tx)) ==> (hcN[0] == old(hcN[0]) + 1 && hcKind[old(hcN[0])] == 0 && hcCallee[old(hcN[0])] == next && hcCtx[old(hcN[0])] == ctx && hcTxTag[old(hcN[0])] == typeof(tx) && hcTx[old(hcN[0])] == payload(tx) && hcSim[old(hcN[0])] == simulate && newCtx == hcResCtx[old(hcN[0])] && typeof(err) == hcResErrTag[old(hcN[0])] && payload(err) == hcResErr[old(hcN[0])] && hcSawFlagNonce[old(hcN[0])] == old(trFlagNonce[layer(ctx)]) && hcSawFlagPaid[old(hcN[0])] == old(trFlagPaid[layer(ctx)]) && hcSawSeq[old(hcN[0])] == old(acctSeq[layer(ctx)]))
 //@   ensures[C07.eth_next_or_reject] single(payload(tx)) ==> ((hcN[0] == old(hcN[0]) + 1 && hcKind[old(hcN[0])] == 0 && hcCallee[old(hcN[0])] == next && hcCtx[old(hcN[0])] == ctx && hcTxTag[old(hcN[0])] == typeof(tx) && hcTx[old(hcN[0])] == payload(tx) && hcSim[old(hcN[0])] == simulate && newCtx == hcResCtx[old(hcN[0])] && typeof(err) == hcResErrTag[old(hcN[0])] && payload(err) == hcResErr[old(hcN[0])] && hcSawFlagNonce[old(hcN[0])] == old(trFlagNonce[layer(ctx)]) && hcSawFlagPaid[old(hcN[0])] == old(trFlagPaid[layer(ctx)]) && hcSawSeq[old(hcN[0])] == old(acctSeq[layer(ctx)])) || (hcN[0] == old(hcN[0]) && err != nil && newCtx == ctx))
 //@   ensures[C06.sender_is_eoa] (single(payload(tx)) && hcN[0] == old(hcN[0]) + 1) ==> old(isEmptyCodeHash(evmCodeHash[layer(ctx)][bech32Bytes(ethMsgOf(payload(tx)).From)]))
 
-// 991e: EVM-lane only. Cosmos lane: straight to the continuation with the same context. (The Ethereum-lane half is
-// Keeper.SetupExecutionContext, which belongs to the x/evm keeper contracts (C05/C13) and is not summarised here.)
+// 991e: EVM-lane only. Cosmos lane: straight to the continuation with the same context. Ethereum lane: the continuation runs
+// on the context prepared by Keeper.SetupExecutionContext (x/evm/keeper/verif_contracts_ante.go) — same store layer, event manager
+// and header — and sees the tx counter advanced by one, the tx's whole gas limit recorded as its gas used and a placeholder receipt
+// stored under the new index, so that every counted tx has a receipt (receipts stay dense).
 //@ func (sed ELSetupExecutionDecorator) AnteHandle(ctx sdk.Context, tx sdk.Tx, simulate bool, next sdk.AnteHandler) (newCtx sdk.Context, err error)
+//@   requires tx != nil && txUnpacked(payload(tx))
 //@   modifies everything
+//@   panics[C20.own_code_panics] only_if hcPanics[hcN[0]]
+//@   requires single(payload(tx)) ==> (trCount[layer(ctx)] + 1 < pow2(64) && txDecodable(bytes(ethMsgOf(payload(tx)).MarshalledTx)) && decType(bytes(ethMsgOf(payload(tx)).MarshalledTx)) <= 2)
 //@   ensures[C07.cosmos_passes] !single(payload(tx)) ==> (hcN[0] == old(hcN[0]) + 1 && hcKind[old(hcN[0])] == 0 && hcCallee[old(hcN[0])] == next && hcCtx[old(hcN[0])] == ctx && hcTxTag[old(hcN[0])] == typeof(tx) && hcTx[old(hcN[0])] == payload(tx) && hcSim[old(hcN[0])] == simulate && newCtx == hcResCtx[old(hcN[0])] && typeof(err) == hcResErrTag[old(hcN[0])] && payload(err) == hcResErr[old(hcN[0])] && hcSawFlagNonce[old(hcN[0])] == old(trFlagNonce[layer(ctx)]) && hcSawFlagPaid[old(hcN[0])] == old(trFlagPaid[layer(ctx)]) && hcSawSeq[old(hcN[0])] == old(acctSeq[layer(ctx)]))
+//@   ensures[C07.eth_continues,C13.eth_continues] single(payload(tx)) ==> (hcN[0] == old(hcN[0]) + 1 && hcKind[old(hcN[0])] == 0 && hcCallee[old(hcN[0])] == next && hcTxTag[old(hcN[0])] == typeof(tx) && hcTx[old(hcN[0])] == payload(tx) && hcSim[old(hcN[0])] == simulate && newCtx == hcResCtx[old(hcN[0])] && typeof(err) == hcResErrTag[old(hcN[0])] && payload(err) == hcResErr[old(hcN[0])] && layer(hcCtx[old(hcN[0])]) == layer(ctx) && hdr(hcCtx[old(hcN[0])]) == hdr(ctx) && mode(hcCtx[old(hcN[0])]) == mode(ctx))
+//@   ensures[C13.eth_counter_and_gas,C05.eth_counter_and_gas] single(payload(tx)) ==> (hcSawTrCount[old(hcN[0])] == old(trCount[layer(ctx)]) + 1 && hcSawTrGas[old(hcN[0])] == old(trGas[layer(ctx)][trCount[layer(ctx)] := decGas(bytes(ethMsgOf(payload(tx)).MarshalledTx))]) && hcSawHasReceipt[old(hcN[0])] == old(trHasReceipt[layer(ctx)][trCount[layer(ctx)] := true]))
+//@   ensures[C13.eth_receipts_dense] (single(payload(tx)) && (forall i int :: (0 <= i && i < old(trCount[layer(ctx)])) ==> old(trHasReceipt[layer(ctx)][i]))) ==> (forall i int :: (0 <= i && i < hcSawTrCount[old(hcN[0])]) ==> hcSawHasReceipt[old(hcN[0])][i])
+//@   ensures[C13.eth_flags_untouched] single(payload(tx)) ==> (hcSawFlagNonce[old(hcN[0])] == old(trFlagNonce[layer(ctx)]) && hcSawFlagPaid[old(hcN[0])] == old(trFlagPaid[layer(ctx)]) && hcSawSeq[old(hcN[0])] == old(acctSeq[layer(ctx)]))
 
-// 992e: EVM-lane only. Cosmos lane: straight to the continuation, no event.
+// 992e: EVM-lane only. Cosmos lane: straight to the continuation, no event. Ethereum lane: exactly one event is emitted, on the
+// event manager of ctx, before the continuation runs: type ethereum_tx, carrying the hash of the embedded transaction and its index
+// in the block = (tx counter - 1), the same index under which 991e stored the placeholder receipt (arg1: the event handed to EmitEvent).
+//@ import evmtypes "github.com/EscanBE/evermint/v12/x/evm/types"
+//@ import strconv "strconv"
 //@ func (eed ELEmitEventDecorator) AnteHandle(ctx sdk.Context, tx sdk.Tx, simulate bool, next sdk.AnteHandler) (newCtx sdk.Context, err error)
+//@   requires tx != nil && txUnpacked(payload(tx))
 //@   modifies everything
+// own panics: the embedded bytes do not decode (excluded by 03)
+//@   panics[C20.own_code_panics] only_if hcPanics[hcN[0]] || (single(payload(tx)) && !txDecodable(bytes(ethMsgOf(payload(tx)).MarshalledTx)))
 //@   ensures[C07.cosmos_passes] !single(payload(tx)) ==> (hcN[0] == old(hcN[0]) + 1 && hcKind[old(hcN[0])] == 0 && hcCallee[old(hcN[0])] == next && hcCtx[old(hcN[0])] == ctx && hcTxTag[old(hcN[0])] == typeof(tx) && hcTx[old(hcN[0])] == payload(tx) && hcSim[old(hcN[0])] == simulate && newCtx == hcResCtx[old(hcN[0])] && typeof(err) == hcResErrTag[old(hcN[0])] && payload(err) == hcResErr[old(hcN[0])] && hcSawFlagNonce[old(hcN[0])] == old(trFlagNonce[layer(ctx)]) && hcSawFlagPaid[old(hcN[0])] == old(trFlagPaid[layer(ctx)]) && hcSawSeq[old(hcN[0])] == old(acctSeq[layer(ctx)]))
-//@   ensures[C07.eth_continues] single(payload(tx)) ==> (hcN[0] == old(hcN[0]) + 1 && hcKind[old(hcN[0])] == 0 && hcCallee[old(hcN[0])] == next && hcCtx[old(hcN[0])] == ctx && hcTxTag[old(hcN[0])] == typeof(tx) && hcTx[old(hcN[0])] == payload(tx) && hcSim[old(hcN[0])] == simulate && newCtx == hcResCtx[old(hcN[0])] && typeof(err) == hcResErrTag[old(hcN[0])] && payload(err) == hcResErr[old(hcN[0])] && hcSawFlagNonce[old(hcN[0])] == old(trFlagNonce[layer(ctx)]) && hcSawFlagPaid[old(hcN[0])] == old(trFlagPaid[layer(ctx)]) && hcSawSeq[old(hcN[0])] == old(acctSeq[layer(ctx)]))
+//@   ensures[C07.eth_continues,C13.eth_continues] single(payload(tx)) ==> (hcN[0] == old(hcN[0]) + 1 && hcKind[old(hcN[0])] == 0 && hcCallee[old(hcN[0])] == next && hcCtx[old(hcN[0])] == ctx && hcTxTag[old(hcN[0])] == typeof(tx) && hcTx[old(hcN[0])] == payload(tx) && hcSim[old(hcN[0])] == simulate && newCtx == hcResCtx[old(hcN[0])] && typeof(err) == hcResErrTag[old(hcN[0])] && payload(err) == hcResErr[old(hcN[0])] && hcSawFlagNonce[old(hcN[0])] == old(trFlagNonce[layer(ctx)]) && hcSawFlagPaid[old(hcN[0])] == old(trFlagPaid[layer(ctx)]) && hcSawSeq[old(hcN[0])] == old(acctSeq[layer(ctx)]))
+//@   at call types.EventManagerI.EmitEvent@1 assert[C13.ante_event_on_ctx_manager] recv == ctx.EventManager() && single(payload(tx))
+//@   at call types.EventManagerI.EmitEvent@1 assert[C13.ante_event_shape] arg1.Type == evmtypes.EventTypeEthereumTx && len(arg1.Attributes) == 2 && arg1.Attributes[0].Key == evmtypes.AttributeKeyEthereumTxHash && arg1.Attributes[1].Key == evmtypes.AttributeKeyTxIndex
+//@   at call types.EventManagerI.EmitEvent@1 assert[C13.ante_event_tx_index] arg1.Attributes[1].Value == strconv.FormatUint(max(1, trCount[layer(ctx)]) - 1, 10)
+//@   at call types.EventManagerI.EmitEvent@1 assert[C13.ante_event_tx_hash] arg1.Attributes[0].Value == decHash(bytes(ethMsgOf(payload(tx)).MarshalledTx)).Hex()
 
-// 993e (ELExecWithoutErrorDecorator) is NOT under contract here: `&ed.ek` (an interior pointer) is converted to the EvmKeeper
-// interface for NewStateDB, which the verifier's memory model does not support, and the trial execution needs the state
-// transition preconditions of x/evm/keeper (C08 territory). Its lane guard is the same two lines as in the decorators above.
+// 993e: the trial execution runs only for an Ethereum-lane tx in CheckTx / ReCheckTx / simulation; in every other case the
+// decorator goes straight to the continuation and touches nothing. The trial itself runs on a CacheContext branch whose write
+// function is dropped: when the continuation is called, every layered component of the world seen through ctx (balances, supply,
+// accounts, x/evm and fee-market params, per-block bookkeeping, flags: prelude/40_statedb_context.spec) and ctx's event list are what
+// they were on entry (C08: the trial execution is side-effect free).
+// requires: the stored fee-market params are valid (x/feemarket SetParams: base fee present), as for the fee checkers.
+//@ func (ed ELExecWithoutErrorDecorator) AnteHandle(ctx sdk.Context, tx sdk.Tx, simulate bool, next sdk.AnteHandler) (newCtx sdk.Context, err error)
+//@   requires !fmBaseFeeNil[layer(ctx)]
+// (the x/evm keeper is wired: its precompile keeper has a store key and a codec — precondition of Keeper.NewEVM)
+//@   requires ed.ek.cpcKeeper.storeKey != nil && ed.ek.cpcKeeper.cdc != nil
+//@   requires tx != nil && txUnpacked(payload(tx))
+//@   modifies everything
+// (no C20 clause: Keeper.NewEVM — verified for C17 — is specified `panics any`; the trial path's other panic sites are the explicit
+// panic(err) after AsMessage and nil accounts, all excluded by 03 / 07 / 11 / 12)
+//@   ensures[C07.cosmos_passes,C08.cosmos_passes] !single(payload(tx)) ==> (hcN[0] == old(hcN[0]) + 1 && hcKind[old(hcN[0])] == 0 && hcCallee[old(hcN[0])] == next && hcCtx[old(hcN[0])] == ctx && hcTxTag[old(hcN[0])] == typeof(tx) && hcTx[old(hcN[0])] == payload(tx) && hcSim[old(hcN[0])] == simulate && newCtx == hcResCtx[old(hcN[0])] && typeof(err) == hcResErrTag[old(hcN[0])] && payload(err) == hcResErr[old(hcN[0])] && hcSawFlagNonce[old(hcN[0])] == old(trFlagNonce[layer(ctx)]) && hcSawFlagPaid[old(hcN[0])] == old(trFlagPaid[layer(ctx)]) && hcSawSeq[old(hcN[0])] == old(acctSeq[layer(ctx)]))
+//@   ensures[C07.deliver_passes,C08.deliver_passes] (!ctx.IsCheckTx() && !ctx.IsReCheckTx() && !simulate) ==> (hcN[0] == old(hcN[0]) + 1 && hcKind[old(hcN[0])] == 0 && hcCallee[old(hcN[0])] == next && hcCtx[old(hcN[0])] == ctx && hcTxTag[old(hcN[0])] == typeof(tx) && hcTx[old(hcN[0])] == payload(tx) && hcSim[old(hcN[0])] == simulate && newCtx == hcResCtx[old(hcN[0])] && typeof(err) == hcResErrTag[old(hcN[0])] && payload(err) == hcResErr[old(hcN[0])] && hcSawFlagNonce[old(hcN[0])] == old(trFlagNonce[layer(ctx)]) && hcSawFlagPaid[old(hcN[0])] == old(trFlagPaid[layer(ctx)]) && hcSawSeq[old(hcN[0])] == old(acctSeq[layer(ctx)]))
+//@   ensures[C08.trial_next_or_reject] ((hcN[0] == old(hcN[0]) + 1 && hcKind[old(hcN[0])] == 0 && hcCallee[old(hcN[0])] == next && hcTxTag[old(hcN[0])] == typeof(tx) && hcTx[old(hcN[0])] == payload(tx) && hcSim[old(hcN[0])] == simulate && newCtx == hcResCtx[old(hcN[0])] && typeof(err) == hcResErrTag[old(hcN[0])] && payload(err) == hcResErr[old(hcN[0])] && hcCtx[old(hcN[0])] == ctx) || (hcN[0] == old(hcN[0]) && err != nil && newCtx == ctx))
+//@   at call dyncall@1 assert[C08.view_unchanged_at_next] viewEqOld(layer(ctx), layer(ctx))
+//@   at call dyncall@2 assert[C08.view_unchanged_at_next] viewEqOld(layer(ctx), layer(ctx))
+//@   at call dyncall@3 assert[C08.view_unchanged_at_next_after_trial] viewEqOld(layer(ctx), layer(ctx)) && evlog[payload(ctx.EventManager())] == old(evlog[payload(ctx.EventManager())])
+//@   ensures[C08.trial_world_unchanged] hcN[0] == old(hcN[0]) + 1 ==> (hcSawFlagNonce[old(hcN[0])] == old(trFlagNonce[layer(ctx)]) && hcSawFlagPaid[old(hcN[0])] == old(trFlagPaid[layer(ctx)]) && hcSawSeq[old(hcN[0])] == old(acctSeq[layer(ctx)]) && hcSawTrCount[old(hcN[0])] == old(trCount[layer(ctx)]) && hcSawTrGas[old(hcN[0])] == old(trGas[layer(ctx)]) && hcSawHasReceipt[old(hcN[0])] == old(trHasReceipt[layer(ctx)]))
